@@ -173,15 +173,38 @@ CHECKS = {
 }
 
 ALL = ["C%02d" % i for i in range(1, 20)]
+def added_dimensions():
+    """The 'what each check enumerates NOW' table of DESIGN.md 10.1: dimensions added after independently seeded changes slipped through."""
+    out = {}
+    try:
+        with open(os.path.join(VERIF, "DESIGN.md")) as f:
+            lines = f.read().split("| check | dimensions added to the first plan |", 1)[1].splitlines()
+    except Exception:
+        return out
+    for ln in lines[2:]:
+        if not ln.startswith("| C"):
+            break
+        pids, dims = [x.strip() for x in ln.strip().strip("|").split("|", 1)]
+        for pid in pids.split("/"):
+            pid = pid if pid.startswith("C") else "C" + pid
+            out[pid] = dims
+    return out
+
+
 NOT_BUILT_REASON = "check not built yet in this session (planned in DESIGN.md section 4); nothing is claimed for it"
 
 
 def main():
+    global ADDED
+    ADDED = added_dimensions()
     checks = []
     for pid in ALL:
         if pid not in CHECKS:
             continue
         level, technique, text, note, ref = CHECKS[pid]
+        extra = ADDED.get(pid)
+        if extra:
+            text = text + " Dimensions added later (DESIGN 10.1, each because an independently written change slipped through without it): " + extra + "."
         checks.append({
             "property_id": pid,
             "quick_cmd": "/venv/bin/python /verif/mcx/run.py %s quick" % pid,
